@@ -100,6 +100,7 @@ type interpreter struct {
 	callStack  []*ssa.Function
 	panicStack []string
 	events     []Event
+	osst       *osState
 }
 
 type deferred struct {
@@ -608,6 +609,9 @@ func runFrame(fr *frame) {
 		fr.panic = recover()
 		if fr.i.mode&EnableTracing != 0 {
 			fmt.Fprintf(os.Stderr, "Panicking: %T %v.\n", fr.panic, fr.panic)
+		}
+		if _, exiting := fr.panic.(exitPanic); exiting {
+			panic(fr.panic) // os.Exit runs no deferred calls
 		}
 		fr.runDefers()
 		fr.block = fr.fn.Recover
